@@ -530,24 +530,16 @@ def firstVals : List (Str × List Str) → List (Str × Str)
   | (k, v :: _) :: rest => (k, v) :: firstVals rest
   | (_, []) :: rest => firstVals rest
 
-/-- `found` of urlValuesDecoder.DecodeObject: some declared property, and some request key that is declared or
-resolves in the result -/
+/-- `found` of urlValuesDecoder.DecodeObject: an object that declares no properties (a free-form map) is present once a
+property was decoded for it (`found := len(Properties) == 0 && len(val) > 0`, commit aa57be9); otherwise some request key
+names a declared property or resolves in the result (the loop over the declared properties) -/
 def queryObjFound {β γ : Type} (sprops : List (Str × β)) (props : List (Str × Str)) (val : List (Str × γ)) : Bool :=
-  !sprops.isEmpty && props.any (fun kv => hasKey kv.1 sprops || hasKey kv.1 val)
+  (sprops.isEmpty && !val.isEmpty) ||
+  (!sprops.isEmpty && props.any (fun kv => hasKey kv.1 sprops || hasKey kv.1 val))
 
-/-- `found` on the specification side (`presenceAware`): the code computes `found` inside its loop over the *declared*
-properties, so an object schema that declares none (a free-form map: `additionalProperties: {…}` only) is never
-found, whatever the request carries (finding F-C05-6); the specification counts such a parameter as present as soon
-as a property was decoded for it. -/
-def objFound (presenceAware : Bool) {β γ : Type} (sprops : List (Str × β)) (val : List (Str × γ)) (codeFound : Bool) : Bool :=
-  if presenceAware && sprops.isEmpty then !val.isEmpty else codeFound
-
-def queryObj (prim : PT → Str → PR) (absentAware presenceAware : Bool) (name : Str) (st : Sty) (ex : Bool) (r : Req)
+def queryObj (prim : PT → Str → PR) (name : Str) (st : Sty) (ex : Bool) (r : Req)
     (sprops : List (Str × PS)) (addl : Option PS) : Out :=
   if st ≠ .form then badMethodObj else
-  -- specification side only (`absentAware`): an exploded object none of whose declared properties occurs in the
-  -- query is absent; the code builds the empty object from the other query parameters instead
-  if absentAware && ex && addl.isNone && !(firstVals r.query).any (fun kv => hasKey kv.1 sprops) then absentObj else
   let propsO : Option (Option (List (Str × Str))) :=   -- none = error, some none = no props
     if ex then some (some (firstVals r.query))
     else match qLookup name r.query with
@@ -562,7 +554,11 @@ def queryObj (prim : PT → Str → PR) (absentAware presenceAware : Bool) (name
   | some (some props) =>
     match makeObject prim props sprops addl with
     | none => ⟨.nilObj, false, some .parse⟩
-    | some kvs => ⟨.obj kvs, objFound presenceAware sprops kvs (queryObjFound sprops props kvs), none⟩
+    | some kvs =>
+      -- commit 404949f: exploded form, no additionalProperties schema, nothing found: the other query parameters are
+      -- not properties of this object, the parameter is absent (typed-nil map)
+      if !queryObjFound sprops props kvs && ex && addl.isNone then absentObj
+      else ⟨.obj kvs, queryObjFound sprops props kvs, none⟩
 
 /-! ### deepObject, one level: `name[prop]=v` and `name[prop][i]=v` -/
 
@@ -595,9 +591,10 @@ def brackets : List Str → Str
   | s :: rest => '[' :: s ++ ']' :: brackets rest
 
 /-- a query key that the deepObject branch takes for `name` (prefix `name[`, at least one group) is *well formed* when it
-is exactly `name[s1]…[sn]`. The code only collects the groups, so `p[a]zz`, `p[a][`, `p[a]x[b]` are read as `p[a]`,
-`p[a]`, `p[a][b]` — and collide with the real key in a Go map whose iteration order decides (finding F-C05-7). Keys that
-do not belong to the parameter at all count as well formed (nothing to object to). -/
+is exactly `name[s1]…[sn]`: the code rebuilds `param + groups` and skips a key that differs (`rebuilt != key → continue`,
+commit f73e4f9; before, `p[a]zz`, `p[a][`, `p[a]x[b]` were read as `p[a]`, `p[a]`, `p[a][b]` and collided with the real
+key in a Go map whose iteration order decided, former finding F-C05-7). Keys that do not belong to the parameter at all
+count as well formed (nothing to object to). -/
 def wellFormedKey (name k : Str) : Bool :=
   match deepKey name k with
   | some segs => k == name ++ brackets segs
@@ -668,6 +665,9 @@ def buildSub (prim : PT → Str → PR) (ents : List (List Str × List Str)) : L
       | some _ => none
       | none => buildSub prim ents rest
 
+/-- bound on the null elements sliceMapToSlice adds for indexes that are not given -/
+def maxArrayIndexGap : Nat := 1024
+
 /-- buildResObj for one declared property of a deepObject: none = ParseError, some none = not set -/
 def deepProp (prim : PT → Str → PR) (props : List (List Str × List Str)) (k : Str) : DS → Option (Option DV)
   | .prim ps =>
@@ -685,7 +685,10 @@ def deepProp (prim : PT → Str → PR) (props : List (List Str × List Str)) (k
       | [] => some none
       | ents => match allIdx ents with
         | none => none
-        | some ie => (deepItems prim items.t ie (maxIdx (ie.map Prod.fst) + 1) 0).map (fun xs => some (.a xs))
+        | some ie =>
+          -- sliceMapToSlice: "array index %d is too far beyond the %d elements given" (commit ab8c63f)
+          if maxIdx (ie.map Prod.fst) ≥ ie.length + maxArrayIndexGap then none
+          else (deepItems prim items.t ie (maxIdx (ie.map Prod.fst) + 1) 0).map (fun xs => some (.a xs))
   | .obj sub _ =>
     match deepScalar k props with
     | some [s] => some (some (.p (.str s)))          -- not a map: "return it either way and leave validation up to ValidateParameter"
@@ -741,9 +744,10 @@ def dvGet (val : List (Str × DV)) : List Str → Bool
 
 /-- `found`: some declared property, and some key that names a declared property or resolves in the result -/
 def deepFound (sprops : List (Str × DS)) (props : List (List Str × List Str)) (val : List (Str × DV)) : Bool :=
-  !sprops.isEmpty && props.any (fun kv => (match kv.1 with
+  (sprops.isEmpty && !val.isEmpty) ||
+  (!sprops.isEmpty && props.any (fun kv => (match kv.1 with
     | [p] => hasKey p sprops
-    | _ => false) || dvGet val kv.1)
+    | _ => false) || dvGet val kv.1))
 
 def queryDeep (prim : PT → Str → PR) (name : Str) (r : Req) (sprops : List (Str × DS)) : Out :=
   match deepProps name r.query with
@@ -792,7 +796,7 @@ def deepAddl (prim : PT → Str → PR) (props : List (List Str × List Str)) (a
 def liftP (res : List (Str × PV)) : List (Str × DV) := res.map (fun kv => (kv.1, DV.p kv.2))
 
 /-- a flat object schema with an additionalProperties schema under style deepObject -/
-def queryDeepFlatA (prim : PT → Str → PR) (presenceAware : Bool) (name : Str) (r : Req) (sprops : List (Str × PS)) (a : PS) : Out :=
+def queryDeepFlatA (prim : PT → Str → PR) (name : Str) (r : Req) (sprops : List (Str × PS)) (a : PS) : Out :=
   match deepProps name r.query with
   | [] => absentObj
   | props =>
@@ -804,8 +808,7 @@ def queryDeepFlatA (prim : PT → Str → PR) (presenceAware : Bool) (name : Str
       | none => ⟨.nilObj, false, some .parse⟩
       | some extra =>
         ⟨.obj (dvPrims kvs ++ extra),
-         objFound presenceAware sprops (dvPrims kvs ++ extra)
-           (deepFound (sprops.map (fun kv => (kv.1, DS.prim kv.2))) props (kvs ++ liftP extra)), none⟩
+         deepFound (sprops.map (fun kv => (kv.1, DS.prim kv.2))) props (kvs ++ liftP extra), none⟩
 
 /-! ## headerParamDecoder, cookieParamDecoder -/
 
@@ -854,8 +857,8 @@ def cookieObj (prim : PT → Str → PR) (explodeBad : Bool) (st : Sty) (ex : Bo
   | none => absentObj
   | some raw => objOut prim true raw [','] [','] sprops addl
 
-/-- the specification's view of a deepObject request: keys with text outside the bracket groups are not keys of this
-parameter (they are other parameters' names) -/
+/-- the deepObject branch's view of the request: keys with text outside the bracket groups are skipped (they are other
+parameters' names) -/
 def strictReq (name : Str) (r : Req) : Req := { r with query := r.query.filter (fun kv => wellFormedKey name kv.1) }
 
 /-! ## decodeStyledParameter / decodeValue -/
@@ -864,15 +867,10 @@ def strictReq (name : Str) (r : Req) : Req := { r with query := r.query.filter (
 structure Flavour where
   prim : PT → Str → PR
   cookieExplodeBad : Bool
-  absentAware : Bool
-  presenceAware : Bool
-  strictDeepKeys : Bool
   untypedAsString : Bool
 
-def impl : Flavour := ⟨parsePrim, true, false, false, false, false⟩
-def spec : Flavour := ⟨specPrim, false, true, true, true, true⟩
-
-def Flavour.deepReq (fl : Flavour) (name : Str) (r : Req) : Req := if fl.strictDeepKeys then strictReq name r else r
+def impl : Flavour := ⟨parsePrim, true, false⟩
+def spec : Flavour := ⟨specPrim, false, true⟩
 
 /-- is the parameter present at all (decodeValue's last switch: `_, found = pathParams[param]`, `values[param]`,
 `header[CanonicalHeaderKey(param)]`, `req.Cookie(param)`) -/
@@ -909,14 +907,14 @@ def decodeLeaf (fl : Flavour) (c : Cell) (name : Str) (r : Req) : Leaf → Out
     | .path => pathObj fl.prim name c.style c.explode r sprops addl
     | .query => if c.style = .deepObject then
                   (match addl with
-                   | none => queryDeepFlat fl.prim name (fl.deepReq name r) sprops
-                   | some a => queryDeepFlatA fl.prim fl.presenceAware name (fl.deepReq name r) sprops a)
-                else queryObj fl.prim fl.absentAware fl.presenceAware name c.style c.explode r sprops addl
+                   | none => queryDeepFlat fl.prim name (strictReq name r) sprops
+                   | some a => queryDeepFlatA fl.prim name (strictReq name r) sprops a)
+                else queryObj fl.prim name c.style c.explode r sprops addl
     | .header => headerObj fl.prim c.style c.explode r sprops addl
     | .cookie => cookieObj fl.prim fl.cookieExplodeBad c.style c.explode r sprops addl
   | .deep sprops _ => match c.loc, c.style with
-    | .query, .deepObject => queryDeep fl.prim name (fl.deepReq name r) sprops
-    | .query, .form => queryObj fl.prim fl.absentAware fl.presenceAware name c.style c.explode r [] none   -- never generated
+    | .query, .deepObject => queryDeep fl.prim name (strictReq name r) sprops
+    | .query, .form => queryObj fl.prim name c.style c.explode r [] none   -- never generated
     | .query, _ => badMethodObj
     | .path, _ => pathObj fl.prim name c.style c.explode r [] none
     | .header, _ => headerObj fl.prim c.style c.explode r [] none
@@ -1245,6 +1243,11 @@ def defaultMethod : Loc → Sty × Bool
   | .query => (.form, true)
   | .cookie => (.form, true)
 
+/-- Parameter.SerializationMethod: style and explode are defaulted independently of each other — a parameter that spells
+out `style: form` and leaves `explode` out still explodes -/
+def smOf (loc : Loc) (style : Option Sty) (explode : Option Bool) : Cell :=
+  ⟨loc, style.getD (defaultMethod loc).1, explode.getD (defaultMethod loc).2⟩
+
 /-! ## exclusion predicates (known-finding classes) -/
 
 /-- #31: cookie, form, explode=true with an array or object schema -/
@@ -1301,35 +1304,12 @@ def EnumGoType (p : Param) : Bool :=
     (((schLeaves p.schema).any leafHasInt32 && (schLeaves p.schema).any leafHasEnum) ||
      ((schLeaves p.schema).any leafArrInt && (schLeaves p.schema).any leafArrEnum)))
 
-/-- query, form, explode=true, an object schema without additionalProperties schema, other query parameters
-present but none of the object's declared properties: the parameter is absent, the code decodes `{}` -/
-def leafQueryObjAbsent (r : Req) : Leaf → Bool
-  | .obj sprops _ none => !(firstVals r.query).any (fun kv => hasKey kv.1 sprops)
-  | _ => false
-
-def QueryObjAbsent (p : Param) (r : Req) : Bool :=
-  p.cell.loc = .query && p.cell.style = .form && p.cell.explode && !r.query.isEmpty &&
-  (schLeaves p.schema).any (leafQueryObjAbsent r)
-
-/-- F-C05-6: a query parameter whose object schema declares no property but has an additionalProperties schema
-(a free-form map): the code's `found` is always false, so a supplied required parameter is reported missing -/
-def leafNoProps : Leaf → Bool
-  | .obj [] _ (some _) => true
-  | _ => false
-
-def QueryObjNoProps (p : Param) : Bool :=
-  p.cell.loc = .query && (schLeaves p.schema).any leafNoProps
-
 /-- F-C05-8: a schema without `type` (and without composition): the text of the parameter is never read -/
 def leafUntyped : Leaf → Bool
   | .untyped _ => true
   | _ => false
 
 def UntypedSchema (p : Param) : Bool := (schLeaves p.schema).any leafUntyped
-
-/-- F-C05-7: a deepObject parameter and a query key `name[…` with text outside its bracket groups -/
-def DeepKeyJunk (p : Param) (r : Req) : Bool :=
-  p.cell.loc = .query && p.cell.style = .deepObject && r.query.any (fun kv => !wellFormedKey p.name kv.1)
 
 /-! ## Encodable: the injectivity domain of the specification's encoding -/
 
